@@ -151,6 +151,7 @@ def simulate_execution(ex, sp, intent):
     ticks_since_init = 0
     j = 0
     samples = []
+    j0s = []
     rounds = 0
     while True:
         if max_ps is not None and elapsed >= max_ps:
@@ -167,6 +168,7 @@ def simulate_execution(ex, sp, intent):
         dur = conv(dur_ticks, freq)
         if tuned and rem is None:
             samples = []
+            j0s = []
             if precision > 0 and dur // precision <= 100:
                 next_size = size * 2
             else:
@@ -176,6 +178,7 @@ def simulate_execution(ex, sp, intent):
             next_size = size
         rec = dur if dur != 0 else (precision if tuned else 0)
         samples.extend([(rec, size)] * effT)
+        j0s.extend([j - size] * effT)
         if rem is not None:
             rem = max(0, rem - effT)
         ticks_since_init += delta + charges + delta
@@ -191,6 +194,7 @@ def simulate_execution(ex, sp, intent):
     durs = [d for (d, sz) in samples if sz == final_size]
     res["calls"] = {k: j for k in range(effT)}
     res["samples"] = durs
+    res["sample_j0"] = [j0 for (j0, (d, sz)) in zip(j0s, samples) if sz == final_size]
     res["sample_size"] = final_size
     res["predictable_time"] = (effT == 1) or (max_ps is None and min_ps == 0)
     return res
